@@ -231,6 +231,16 @@ Proof.
     + left. rewrite Heql. unfold cbc, cnt. simpl. destruct (Nat.eqb d d1) eqn:E'; [apply Nat.eqb_eq in E'; congruence|simpl; lia].
   - st_cases d0. intros [A B]. split; auto. eapply f_set_done; eauto.
   - intros d1. left. simpl. unfold cbc, cnt. simpl. lia.
+  - st_cases d0. intros [A B]. split; auto. rewrite (fires_pending _ Heqb0). reflexivity.
+  - assert (Hs : started s d = false).
+    { unfold started. rewrite (fires_pending _ Heqb0). apply andb_false_r. }
+    intros d1. simpl. destruct (Nat.eq_dec d1 d) as [->|N].
+    + right. split; [exact Hs|]. split.
+      * unfold started. simpl. rewrite upd_same, Heqb1. rewrite (fires_pending _ Heqb0). reflexivity.
+      * unfold cbc, cnt; simpl. rewrite Nat.eqb_refl. simpl. lia.
+    + left. rewrite Heql. unfold cbc, cnt. simpl. destruct (Nat.eqb d d1) eqn:E'; [apply Nat.eqb_eq in E'; congruence|simpl; lia].
+  - st_cases d0. intros [A B]. split; auto. rewrite (fires_pending _ Heqb0). reflexivity.
+  - intros d1. left. simpl. unfold cbc, cnt. simpl. lia.
 Qed.
 
 
